@@ -22,7 +22,9 @@ RULE = ("seeded combinator calls: and_/or_/not_ over 1-4 scripted idempotent mem
         "function couplers and penalty combinators on scripted functions; non-trivial = the combinator had to iterate beyond its first "
         "pass or took the failure path; distinct = trace digests")
 ASSUMPTIONS = ["members are constraint solvers in mystic's sense: deterministic and idempotent (a non-idempotent member makes and_ report "
-               "success at a non-fixed point on its first pass by construction)",
+               "success at a non-fixed point on its first pass by construction); the one exception is or_, which re-applies a member to its "
+               "own result before accepting it: there a contraction (x -> t + (x-t)/2, not idempotent, exact fixed point after ~55 "
+               "applications) is also used as a member",
                "inner/outer/additive and the penalty and_/or_/not_ are deterministic one-liners with no seam: they are asserted here on "
                "scripted functions but the simulator adds nothing to them"]
 REAL = ["mystic.constraints.and_/or_/not_", "mystic.coupler (inner, outer, additive, and_, or_, not_)", "mystic.penalty"]
